@@ -77,16 +77,22 @@ def _ctor_job(state, sp):
         want = {s: tuple(t[c] for t, c in zip(sp.tables, s)) for s in all_sectors(model, sp.duals, sp.charge, sp.tables)}
         indices = x.fields["_indices"]
         fextra = {"oddpos": sp.label} if fm else {}
-        for label, name, args, kw in (
-            ("from_fill_fn", "from_fill_fn", [fill, indices], {"charge": sp.charge, "symmetry": sp.sym}),
-            ("random", "random", [indices], {"charge": sp.charge, "symmetry": sp.sym}),
-        ):
+        fvariants = [("from_fill_fn", "from_fill_fn", generic, [fill, indices], {"charge": sp.charge, "symmetry": sp.sym}),
+                     ("from_fill_fn, symmetry object", "from_fill_fn", generic, [fill, indices], {"charge": sp.charge, "symmetry": symobj}),
+                     ("random", "random", generic, [indices], {"charge": sp.charge, "symmetry": sp.sym})]
+        if fixed is not None:
+            fvariants.append(("from_fill_fn on the fixed-symmetry class", "from_fill_fn", fixed, [fill, indices], {"charge": sp.charge}))
+            fvariants.append(("random on the fixed-symmetry class", "random", fixed, [indices], {"charge": sp.charge}))
+        if sp.charge == ident:
+            fvariants.append(("from_fill_fn, charge omitted", "from_fill_fn", generic, [fill, indices], {"symmetry": sp.sym}))
+            fvariants.append(("random, charge omitted", "random", generic, [indices], {"symmetry": sp.sym}))
+        for label, name, gcls, args, kw in fvariants:
             wit.tick("R16.6")
             ev2 = w.ev()
             ev2.stubs["get_random_fill_fn"] = lambda **k: fill
-            m = prog.lookup_method(generic, name)
+            m = prog.lookup_method(gcls, name)
             try:
-                y = ev2.call(m, list(args), dict(kw, **fextra), self_obj=generic)
+                y = ev2.call(m, list(args), dict(kw, **fextra), self_obj=gcls)
             except Raised as e:
                 wit.bad(f"R16.6|{label}: refused", f"{where}: {label} raises {e.what[:100]}")
                 continue
